@@ -230,6 +230,7 @@ func (r *Report) Finish() int {
 		}
 	}
 	replayDir := filepath.Join(VerifDir, "replays", r.Property)
+	os.RemoveAll(replayDir)
 	var replayPaths []string
 	for _, f := range violations {
 		os.MkdirAll(replayDir, 0o755)
